@@ -210,7 +210,9 @@ func buildYAML(in *input) []byte {
 	return b
 }
 
-type stubProvider struct{ m map[string]*sharding.NodeMetrics }
+type stubProvider struct {
+	m map[string]*sharding.NodeMetrics
+}
 
 func (p *stubProvider) GetNodeMetrics(n string) *sharding.NodeMetrics { return p.m[n] }
 func (p *stubProvider) GetAllNodeMetrics() map[string]*sharding.NodeMetrics {
